@@ -90,6 +90,7 @@ type Model struct {
 	usedDigests map[string]bool
 	usedTags    map[string]bool
 	collections int
+	reqStart    time.Time // when the request whose effect is being applied was sent
 }
 
 func newModel(k Knobs) *Model {
@@ -318,9 +319,15 @@ func (m *Model) judgeManifestPut(repo, ref, ctype, qdigest string, body []byte, 
 func (m *Model) applyManifestPut(repo string, v manVerdict, body []byte, now time.Time) {
 	r := m.repo(repo)
 	m.usedDigests[v.digest] = true
+	// "born" is the earliest moment the content may have been written: when the request was sent (a slow or stalled handler
+	// acknowledges long after it stored the bytes)
+	born := now
+	if !m.reqStart.IsZero() && m.reqStart.Before(now) {
+		born = m.reqStart
+	}
 	if b, ok := r.blobs[v.digest]; !ok || b.maybeGone {
 		if !ok {
-			r.blobs[v.digest] = &MBlob{data: body, born: now, acked: now}
+			r.blobs[v.digest] = &MBlob{data: body, born: born, acked: now}
 		} else {
 			b.maybeGone = false
 		}
@@ -331,8 +338,8 @@ func (m *Model) applyManifestPut(repo string, v manVerdict, body []byte, now tim
 	delete(r.blobDeleted, v.digest)
 	if x, ok := r.mans[v.digest]; ok {
 		// a push that was acknowledged again counts as a push: the grace period starts over
-		if now.After(x.born) {
-			x.born = now
+		if born.After(x.born) {
+			x.born = born
 		}
 		x.acked = now
 		x.maybeGone = false
